@@ -122,6 +122,13 @@ func (c *Cluster) handleListOffsets(creq *clientReq) (kmsg.Response, error) {
 				// The answer is the earliest record at or after the log start
 				// offset whose timestamp is at or after the requested one.
 				sp.Offset = -1
+				// Only offsets a consumer at this isolation level can fetch
+				// are answered: below the last stable offset for
+				// read_committed, below the high watermark otherwise.
+				fetchable := pd.highWatermark
+				if req.IsolationLevel == 1 {
+					fetchable = pd.lastStableOffset
+				}
 				segIdx, metaIdx, meta := pd.findBatchMeta(rp.Timestamp, func(m *batchMeta) int64 { return m.maxTimestamp })
 				var found bool
 				for ; meta != nil && segIdx < len(pd.segments) && !found && sp.ErrorCode == 0; segIdx, metaIdx = segIdx+1, 0 {
@@ -137,7 +144,7 @@ func (c *Cluster) handleListOffsets(creq *clientReq) (kmsg.Response, error) {
 							err = forEachBatchRecord(batch.RecordBatch, func(rec kmsg.Record) error {
 								timestamp := batch.FirstTimestamp + rec.TimestampDelta64
 								offset := batch.FirstOffset + int64(rec.OffsetDelta)
-								if !found && timestamp >= rp.Timestamp && offset >= pd.logStartOffset {
+								if !found && timestamp >= rp.Timestamp && offset >= pd.logStartOffset && offset < fetchable {
 									sp.Offset = offset
 									sp.Timestamp = timestamp
 									sp.LeaderEpoch = m.epoch
